@@ -10,7 +10,7 @@ from vf.cmp import close, circ_diff
 from vf.oracle import formats as F
 
 KINDS = ["triaxys_dir", "triaxys_nondir", "ndbc_realtime", "ndbc_history", "ndbc_1d", "spotter_csv", "spotter_json", "datawell",
-         "obscape", "ww3_station", "swan", "swan", "xwaves"]
+         "obscape", "ww3_station", "swan", "swan", "xwaves", "swanmulti_now", "swanmulti_sites"]
 
 
 def run(ctx):
@@ -269,6 +269,68 @@ def do_swan(rec, rng, ws, xr, d, kind):
         return
     kinds = sorted(set(k for row in t["kinds"] for k in row))
     rec.ok("swan", key + "|" + "+".join(kinds), sample={"options": opts, "blocks": kinds})
+
+
+def do_swanmulti(rec, rng, ws, xr, d, kind):
+    """Multi-file SWAN readers: read_swanow (overlapping dates from the most recent file win) and
+    read_swans (files of one cycle concatenated along site)."""
+    nf, nd = int(rng.integers(3, 12)), int(rng.choice([8, 12, 24]))
+    f = 0.04 * 1.1 ** np.arange(nf)
+    th = (360.0 / nd) * np.arange(nd)
+    t0 = np.datetime64("2022-05-01T00:00:00")
+    if kind == "swanmulti_now":
+        x, y = np.array([round(float(rng.uniform(0, 359)), 6)]), np.array([round(float(rng.uniform(-60, 60)), 6)])
+        nfiles = int(rng.integers(2, 4))
+        truth = {}
+        paths = []
+        for k in range(nfiles):                       # later file name = more recent run, overlapping the previous one
+            start = t0 + np.timedelta64(int(k * rng.integers(1, 4)) * 3600, "s")
+            nt = int(rng.integers(2, 6))
+            p_, times, E, fv, dv = F.swan_series(rng, d, "run%02d.spec" % k, f, th, x, y, start, nt)
+            paths.append(p_)
+            for t, e in zip(times, E):
+                truth[t] = e[0]                       # the most recent file containing a date wins
+        key = "swanow|files=%d" % nfiles
+        out = reader(rec, "swan_multi", key, lambda: __import__('wavespectra.input.swan', fromlist=['read_swanow']).read_swanow(list(rng.permutation(paths))))
+        if out is None:
+            return
+        tt = np.array(sorted(truth))
+        if not times_ok(rec, "swan_multi", key, out, tt):
+            return
+        lead = [dn for dn in out["efth"].dims if dn not in ("time", "freq", "dir")]
+        got = out["efth"].isel({dn: 0 for dn in lead}).transpose("time", "freq", "dir").values
+        want = np.array([truth[t] for t in tt])
+        ok, worst = close(got, want, 1e-9)
+        if ok:
+            rec.ok("swan_multi", key)
+        else:
+            wrong = [str(t) for t, g, w_ in zip(tt, got, want) if not close(g, w_, 1e-9)[0]]
+            rec.bad("swan_multi", key, {"dates_with_wrong_spectra": wrong[:6], "worst_over_tol": worst}, "swanow-overlapping-dates-not-from-most-recent-file")
+        return
+    # read_swans: same cycle, several files -> sites concatenated in sorted file order
+    nfiles = int(rng.integers(2, 4))
+    nt = int(rng.integers(1, 5))
+    paths, Es, xs, ys, names = [], [], [], [], []
+    for k in range(nfiles):
+        ns = 1      # one point per file (the layout read_swans documents: files of a cycle are concatenated along site)
+        x, y = np.round(rng.uniform(0, 359, ns), 6), np.round(rng.uniform(-60, 60, ns), 6)
+        p_, times, E, fv, dv = F.swan_series(rng, d, "part%02d.spec" % k, f, th, x, y, t0, nt)
+        paths.append(p_)
+        Es.append(E)
+        xs += list(x)
+        ys += list(y)
+    key = "swans|files=%d|nt=%d" % (nfiles, nt)
+    out = reader(rec, "swan_multi", key, lambda: __import__('wavespectra.input.swan', fromlist=['read_swans']).read_swans(list(rng.permutation(paths)), int_freq=False, int_dir=False))
+    if out is None or not times_ok(rec, "swan_multi", key, out, times):
+        return
+    want = np.concatenate(Es, axis=1)
+    got = out["efth"].transpose("time", "site", "freq", "dir").values
+    if got.shape != want.shape:
+        rec.bad("swan_multi", key, {"shape_read": got.shape, "shape_files": want.shape}, "swans-shape")
+        return
+    ok, worst = close(got, want, 1e-9)
+    pos = np.allclose(out["lon"].values, xs, atol=1e-9) and np.allclose(out["lat"].values, ys, atol=1e-9)
+    (rec.ok("swan_multi", key) if ok and pos else rec.bad("swan_multi", key, {"worst_over_tol": worst, "positions_ok": bool(pos)}, "swans-sites-wrong"))
 
 
 def do_xwaves(rec, rng, ws, xr, d, kind):
